@@ -81,12 +81,17 @@ function elementB(s) {
   // (the template language has no surrogate-pair escapes: astral characters cannot be spelled with \\u)
   if (!/[\ud800-\udfff]/.test(s)) parts.push(`x="{{ '${spellEscaped(s)}' }}"`)
   parts.push(dq.includes("'") ? `w="{{ '${sq}' }}"` : `w='{{ "${dq}" }}'`)
+  // line continuations (backslash + CR LF / LF / CR / U+2028 / U+2029) before and after the text denote nothing
+  const CONT = ['\\\r\n', '\\\n', '\\\r', '\\\u2028', '\\\u2029']
+  const k = s.codePointAt(0) % CONT.length
+  parts.push(sq.includes('"') ? `y='{{ "${CONT[0]}${dq}${CONT[k]}" }}'` : `y="{{ '${CONT[0]}${sq}${CONT[k]}' }}"`)
   return `<b ${parts.join(' ')}/>`
 }
 const FIND_B = {
   'string-literal': (n) => attr(n, 'attr', 'v'),
   'string-literal-escaped-spelling': (n) => attr(n, 'attr', 'x'),
   'string-literal-other-quote': (n) => attr(n, 'attr', 'w'),
+  'string-literal-between-line-continuations': (n) => attr(n, 'attr', 'y'),
 }
 function elementD(s) {
   const d = spellMarkup(s, '"')
